@@ -1,3 +1,143 @@
-(** C01 — placeholder while the proofs are being written. *)
-From Coq Require Import List ZArith.
-From V Require Import Gen.Params SendStream.Model.
+(** C01 — stream data arrives intact, in order, exactly once under any network faults.
+    Only statements live here; each is closed by [exact] of a lemma proved elsewhere
+    (SendStream/*.v: model of /repo/send_stream.go; StreamE2E/*.v: abstract network and
+    abstract reassembly spec). [run (init ..) ops] is the SendStream model driven by an
+    arbitrary op list (Write / writer-goroutine wake-up / Close / popStreamFrame / OnAcked /
+    OnLost / CancelWrite / STOP_SENDING / getControlFrame / RESET_STREAM acked+lost /
+    MAX_STREAM_DATA / MAX_DATA / SetReliableBoundary / enableResetStreamAt / closeForShutdown);
+    [frames_of (snd ..)] are the frames popStreamFrame returned, [W] is every byte the
+    application wrote. [late] = the reliable size was raised on an already reset stream
+    (SetReliableBoundary after CancelWrite, enableResetStreamAt after a reset): outside the
+    theorems, see the _refuted statements and notes/C01.md. *)
+From Coq Require Import List ZArith Bool.
+From V Require Import Gen.Params Lib.Hex SendStream.Model SendStream.ProofsBase SendStream.ProofsInv
+  SendStream.ProofsCov SendStream.ProofsOut SendStream.Theorems StreamE2E.Model StreamE2E.Compose.
+Import ListNotations.
+Open Scope Z_scope.
+
+(** Every emitted frame carries exactly the written bytes of its range and lies inside what was
+    written; first transmissions are contiguous from 0 to writeOffset; on a stream that was never
+    reset a FIN is only set after Close and exactly at the final size. *)
+Theorem C01_sender_frames_consistent :
+  forall (sid0 : Z) (rsa : bool) (swin cwin : Z) (ops : list op),
+  let s := fst (run (init sid0 rsa swin cwin) ops) in
+  let E := frames_of (snd (run (init sid0 rsa swin cwin) ops)) in
+  late s = false ->
+  (forall f, In f E ->
+     0 <= f_off f /\ f_end f <= zlen (W s) /\
+     f_data f = zfirstn (zlen (f_data f)) (zskipn (f_off f) (W s))) /\
+  contiguous 0 (emittedNew s) (writeOffset s) /\
+  (resetErr s = None -> forall f, In f E -> f_fin f = true ->
+     finishedWriting s = true /\ f_end f = zlen (W s)).
+Proof. exact sender_frames_consistent. Qed.
+Print Assumptions C01_sender_frames_consistent.
+
+(** MaybeSplitOffFrame: the two pieces of a split retransmission cover exactly the byte range of
+    the original frame; the FIN stays on the remainder; both pieces are non-empty. *)
+Theorem C01_split_preserves_range :
+  forall sid0 f maxSize new rest,
+  zlen (f_data f) <= 16383 ->
+  maybe_split sid0 f maxSize = Some (Some (new, rest)) ->
+  f_off new = f_off f /\ f_off rest = f_end new /\ f_end rest = f_end f /\
+  f_data new ++ f_data rest = f_data f /\ f_fin new = false /\ f_fin rest = f_fin f /\
+  0 < zlen (f_data new) /\ 0 < zlen (f_data rest).
+Proof. exact split_preserves_range. Qed.
+Print Assumptions C01_split_preserves_range.
+
+(** Unless the stream was reset or torn down: every byte below writeOffset is acked, in an
+    outstanding frame or in the retransmission queue (what makes recovery possible); so is the
+    FIN once sent; numOutstandingFrames equals the number of frames in flight. *)
+Theorem C01_sender_coverage :
+  forall (sid0 : Z) (rsa : bool) (swin cwin : Z) (ops : list op),
+  let s := fst (run (init sid0 rsa swin cwin) ops) in
+  resetErr s = None -> shutdown s = false ->
+  (forall i, 0 <= i < writeOffset s -> covered i (acked s ++ outstanding s ++ retransQ s)) /\
+  (finSent s = true -> exists f, In f (acked s ++ outstanding s ++ retransQ s) /\ f_fin f = true) /\
+  numOut s = zlen (outstanding s).
+Proof. exact sender_coverage. Qed.
+Print Assumptions C01_sender_coverage.
+
+(** End to end: for every sender history and every delivery sequence drawn from the emitted frames
+    (loss, duplication, reordering; reads of any sizes interleaved), the concatenation of the reads
+    is a prefix of W; EOF is reported only when everything was read and the writer closed. *)
+Theorem C01_end_to_end_prefix :
+  forall (sid0 : Z) (rsa : bool) (swin cwin : Z) (ops : list op) (evs : list event),
+  let s := fst (run (init sid0 rsa swin cwin) ops) in
+  let E := frames_of (snd (run (init sid0 rsa swin cwin) ops)) in
+  let rs := snd (rrun rcv0 evs) in
+  (forall f, In f (delivered evs) -> In f E) ->
+  late s = false ->
+  (exists rest, W s = all_read rs ++ rest) /\
+  (resetErr s = None -> saw_eof rs = true -> all_read rs = W s /\ finishedWriting s = true).
+Proof. exact end_to_end_prefix. Qed.
+Print Assumptions C01_end_to_end_prefix.
+
+(** If what was delivered covers [0,|W|) and includes the FIN (the model's stand-in for
+    "loss recovery eventually delivers"), a draining read yields exactly W and EOF. *)
+Theorem C01_complete_if_covered :
+  forall (sid0 : Z) (rsa : bool) (swin cwin : Z) (ops : list op) (evs : list event),
+  let s := fst (run (init sid0 rsa swin cwin) ops) in
+  let E := frames_of (snd (run (init sid0 rsa swin cwin) ops)) in
+  (forall f, In f (delivered evs) -> In f E) ->
+  forall n,
+  resetErr s = None ->
+  (forall i, 0 <= i < zlen (W s) -> exists f, In f (delivered evs) /\ f_off f <= i < f_end f) ->
+  (exists f, In f (delivered evs) /\ f_fin f = true) ->
+  zlen (W s) <= n ->
+  let rs' := snd (rrun rcv0 (evs ++ [ERead n])) in
+  all_read rs' = W s /\ saw_eof rs' = true /\ finishedWriting s = true.
+Proof. exact complete_if_covered_e2e. Qed.
+Print Assumptions C01_complete_if_covered.
+
+(** Non-vacuity: a history that satisfies every hypothesis above, with a split retransmission. *)
+Definition ex_ops : list op :=
+  [OWrite [1; 2; 3; 4; 5; 6; 7; 8; 9; 10]; OClose; OPop 1452; OLost 0; OPop 8; OPop 1452; OAcked 0; OAcked 0].
+Example C01_nonvacuous :
+  let r := run (init 4 false 1000 1000) ex_ops in
+  late (fst r) = false /\ resetErr (fst r) = None /\ shutdown (fst r) = false /\
+  frames_of (snd r) = [mkF 0 [1; 2; 3; 4; 5; 6; 7; 8; 9; 10] true; mkF 0 [1; 2; 3; 4; 5] false; mkF 5 [6; 7; 8; 9; 10] true] /\
+  completed (fst r) = true /\
+  snd (rrun rcv0 [EDeliver (mkF 5 [6; 7; 8; 9; 10] true); ERead 100; EDeliver (mkF 0 [1; 2; 3; 4; 5] false);
+                  EDeliver (mkF 0 [1; 2; 3; 4; 5] false); ERead 3; ERead 100])
+  = [([], false); ([1; 2; 3], false); ([4; 5; 6; 7; 8; 9; 10], true)].
+Proof. vm_compute. repeat split. Qed.
+Print Assumptions C01_nonvacuous.
+
+(** REFUTED by the faithful model (each witness is replayed on the implementation by the harness,
+    scripted cases -1, -2, -3 of unit sendstream; see known_findings.json):
+
+    1. FIN only at the final size — false once CancelWrite (after Close) meets a reliable size:
+       OnLost truncates the lost frame to the reliable size and keeps its FIN. *)
+Theorem C01_fin_at_final_size_refuted :
+  exists ops, let r := run (init 0 true 1048576 1048576) ops in
+  late (fst r) = false /\
+  exists f, In f (frames_of (snd r)) /\ f_fin f = true /\ f_end f <> zlen (W (fst r)).
+Proof.
+  exists [OWrite (repeat 1 50); ORel; OWrite (repeat 2 50); OClose; OPop 1452; OCancel 7; OCtrl; OLost 0; OPop 1452].
+  vm_compute. split; [reflexivity|]. eexists. split; [right; left; reflexivity|]. split; [reflexivity|discriminate].
+Qed.
+Print Assumptions C01_fin_at_final_size_refuted.
+
+(**  2. "after everything is acked the stream reports completion" — false: a Write parked behind a
+       buffered frame is woken by STOP_SENDING, buffers its data AFTER the reset, returns (n, nil),
+       and isNewlyCompleted can never become true again. *)
+Theorem C01_completes_after_reset_refuted :
+  exists ops, let r := run (init 4 false 600 1048576) ops in
+  let s := fst r in
+  In (Some (1200, 0, 0)) (map o_wres (snd r)) /\   (* Write(1200 bytes) = (1200, nil) after the reset *)
+  resetErr s <> None /\ cancellationFlagged s = true /\ finishedWriting s = true /\
+  numOut s = 0 /\ retransQ s = [] /\ queuedReset s = None /\ outReset s = [] /\
+  completed s = false /\ nfLen s = 1200.
+Proof.
+  exists [OWrite (repeat 1 1000); OPop 1452; OWrite (repeat 2 1200); OStop 5; OResume; OClose; OCtrl; ORAcked 0; OAcked 0].
+  vm_compute. repeat split; try discriminate. do 4 right. left. reflexivity.
+Qed.
+Print Assumptions C01_completes_after_reset_refuted.
+
+(**  3. the code never panics — false: SetReliableBoundary after CancelWrite revives the counter path. *)
+Theorem C01_no_panic_refuted :
+  exists ops, panicked (fst (run (init 0 true 1048576 1048576) ops)) = true.
+Proof.
+  exists [OWrite (repeat 1 100); OPop 1452; OCancel 1; ORel; OAcked 0]. vm_compute. reflexivity.
+Qed.
+Print Assumptions C01_no_panic_refuted.
